@@ -231,7 +231,7 @@ def gen_cases(rng, tier):
     # ---- E. every family through MP_REACH / MP_UNREACH: sizes 0 .. 3 frames
     for f in ALL_FAMILIES[:19]:
         pf = per_frame(f, False, False)
-        counts = [1, 2, 7] + [rng.randint(int(pf * 0.9), int(pf * 1.1)) for _ in range(2 if quick else 12)] + [rng.randint(2 * pf, 3 * pf)]
+        counts = [1, 2, 7] + [rng.randint(int(pf * 0.9), int(pf * 1.3)) for _ in range(4 if quick else 24)] + [rng.randint(2 * pf, 3 * pf)]
         if f in (W.IPV4_FS, W.IPV6_FS, W.IPV4_FSVPN, W.IPV6_FSVPN, W.LS):
             counts = [1, 2, 3, 5, 20, 60] + ([] if quick else [100, 200, 300])
         for n in counts:
@@ -295,6 +295,18 @@ def gen_cases(rng, tier):
         ['reach', W.IPV6_MPLS, NH6, base_attrs(rng), [['x', [[0, ['lab6', [1] * 6, 128, NH6]]]]]],
         ['reach', W.IPV4_MPLS, NH4, base_attrs(rng), [['x', [[0, ['lab4', [], 24, [10, 1, 2, 0]]]]]]],
     ]
+    # ---- H. (thorough) every combination of ADD-PATH modes, extended message, AS width on small messages
+    if not quick:
+        import itertools
+        for lm, rm, e1, e2, a1, a2 in itertools.product(range(4), range(4), (False, True), (False, True), (False, True), (False, True)):
+            for f in (W.IPV4, W.IPV6):
+                for n in (0, 1, 3):
+                    l, r = caps_pair([W.IPV4, W.IPV6], lmode=lm, rmode=rm, ext=(e1, e2), as4=(a1, a2))
+                    es = entries_for(rng, f, n, explicit=3)
+                    if (lm + rm + n) % 2:
+                        cases.append(mk(l, r, ['reach', f, NH4 if f == W.IPV4 else NH6, base_attrs(rng, wide=True, agg=70000), es], ['reach', 'sweep']))
+                    else:
+                        cases.append(mk(l, r, ['unreach', f, es], ['unreach', 'sweep']))
     two_l, two_r = caps_pair([W.IPV4, W.IPV6, W.IPV6_VPN, W.IPV6_MPLS, W.IPV4_MPLS, W.IPV4_VPN], as4=(False, True))
     for m in bad:
         cases.append(mk(two_l, two_r, m, ['malformed']))
